@@ -17,7 +17,7 @@ pub fn meta() -> Meta {
     Meta {
         id: "C07",
         level: "model_checking",
-        rule: "explicit-state search over pools of .skf files: level 0 = every ordered list of distinct samples (all subsets, all orders) built with the real build; each further level merges every ordered selection of 2..4 known files with disjoint sample sets through the real generic_modes::merge (the function `ska merge` calls); a file's state is its full content incl. hidden fields and states are de-duplicated, so the search closes when merged files are indistinguishable from built ones and keeps expanding otherwise (nested merges). Invariant in every state: table and name order equal the model's joint table and the real joint build of the same samples in that order. k in {7,31,33,63} x strand modes; n<=5 quick; thorough adds n=5 at both widths and n=6 with pairwise merges (chains and trees arise over the levels). Refusals (different k incl. 31 vs 33, different strand mode, both orders) through the CLI: non-zero exit and no output file. Selected merge trees are re-executed through `ska merge`.".into(),
+        rule: "explicit-state search over pools of .skf files: level 0 = every ordered list of distinct samples (all subsets, all orders) built with the real build; each further level merges every ordered selection of 2..4 known files with disjoint sample sets through the real generic_modes::merge (the function `ska merge` calls); a file's state is its full content incl. hidden fields and states are de-duplicated, so the search closes when merged files are indistinguishable from built ones and keeps expanding otherwise (nested merges). Invariant in every state: table and name order equal the model's joint table and the real joint build of the same samples in that order. k in {7,31,33,63} x strand modes; n<=5 quick; thorough adds n=5 at both widths and n=6 with pairwise merges (chains and trees arise over the levels). Refusals (different k incl. 31 vs 33, different strand mode, both orders, the incompatible file in second or third position) through the CLI: non-zero exit and no output file. Selected merge trees are re-executed through `ska merge`.".into(),
         assumptions: vec!["sorted-row canonical form: merge treats rows independently".into()],
         exhaustive_when_uncapped: true, // the declared bounded space (all selections / the whole lattice / all histories up to the depth bound / all interleavings and configurations) is enumerated completely unless capped
     }
@@ -211,6 +211,35 @@ fn explore_cfg(c: &Cfg, ctx: &Ctx, rep: &mut Report, idx: &mut u64, max_level: u
     }
 }
 
+fn refusals_third(ctx: &Ctx, rep: &mut Report, idx: &mut u64, files: &[(String, usize, bool)], dir: &str) {
+    // the incompatible file in the third position: still refused, still no output
+    for a in files {
+        for b in files {
+            if a.0 == b.0 || (a.1 == b.1 && a.2 == b.2) {
+                continue;
+            }
+            *idx += 1;
+            if !ctx.mine(*idx) {
+                continue;
+            }
+            rep.evaluations += 1;
+            rep.nontrivial += 1;
+            rep.corner("refusal_third_position");
+            // a second, compatible file: a renamed copy is not needed, merging a file with a copy of itself is compatible in k/strand
+            let _ = std::fs::remove_file(format!("{dir}/out3.skf"));
+            let o = cli::run(&["merge", &a.0, &a.0, &b.0, "-o", "out3"], dir, None);
+            let exists = std::path::Path::new(&format!("{dir}/out3.skf")).exists();
+            if o.code == 0 || exists {
+                rep.violate(
+                    format!("refusal third k={}/{} rc={}/{}", a.1, b.1, a.2, b.2),
+                    format!("merging two k={} rc={} files and then a k={} rc={} file: exit {} and output file {}", a.1, a.2, b.1, b.2, o.code, if exists { "written" } else { "absent" }),
+                    json!({"refusal_third": [a.1, a.2, b.1, b.2]}),
+                );
+            }
+        }
+    }
+}
+
 fn refusals(ctx: &Ctx, rep: &mut Report, idx: &mut u64) {
     let dir = scratch::path("c07ref");
     let _ = std::fs::create_dir_all(&dir);
@@ -247,6 +276,7 @@ fn refusals(ctx: &Ctx, rep: &mut Report, idx: &mut u64) {
             }
         }
     }
+    refusals_third(ctx, rep, idx, &files, &dir);
 }
 
 pub fn replay(_case: &Value) -> Result<Option<String>, String> {
